@@ -20,10 +20,11 @@
 (* lockstep in one behaviour, which turns ShadowEqualsOff (a relation       *)
 (* between two runs) into a state invariant.                                *)
 (*                                                                         *)
-(* Code caps modelled as guards (scaled down: MaxQ for maxQueryerRecursion  *)
-(* = 32, MaxChase for maxCnameChaseDepth = 10, MaxDname for maxDnameDepth   *)
-(* = 10, MaxDepth for cfg.Maxdepth = 30, 3 attempts per (question,          *)
-(* endpoint, transport) = ResolutionAttemptGuard, checkLoop count > 1).     *)
+(* Code caps modelled as guards: MaxQ = maxQueryerRecursion (32), MaxChase  *)
+(* = maxCnameChaseDepth (10), MaxDname = maxDnameDepth (10), 3 attempts per *)
+(* (question, endpoint, transport) = ResolutionAttemptGuard, checkLoop      *)
+(* count > 1; MaxDepth stands for cfg.Maxdepth (30) and is scaled down in   *)
+(* the configurations (it only bounds the referral generator).              *)
 (* Every transport attempt and every sub-query debits the ledger FIRST      *)
 (* (Resolver.exchange, pipelineQueryer.Query).                              *)
 (*                                                                         *)
@@ -270,7 +271,7 @@ Spec == Init /\ [][Next]_vars /\ WF_vars(Next)
 R0Rank == 6
 Unit == R0Rank + 1
 Lvl == 1 + 3 * MaxGenFan
-W == 512
+W == 2048
 
 Rank(f) ==
   IF f.ret # "none" THEN 2
